@@ -21,7 +21,7 @@ LEVEL_TEXT = ("Held on every precondition graph of this run (one non-trivial ape
 LEVEL_NOTE = ("Trusts numpy matrix-vector products and numpy.linalg.eigvals (the latter only to establish the precondition); the "
               "judged value log2 rho is bracketed by Collatz-Wielandt bounds with a gap below 1e-10. Graphs outside the "
               "precondition are not judged for the 1e-4 claim.")
-PLAN = {"quick": dict(shards=16, budget=100), "thorough": dict(shards=32, budget=400)}
+PLAN = {"quick": dict(shards=16, budget=100), "thorough": dict(shards=16, budget=400)}
 RULE = ("Arc subsets (complete graph minus random arcs, optionally with upstream tails and dead ends) and generated graphs of order "
         "2..4 (5 thorough) that meet the precondition; approximate_capacity(G, repeats=r) for r in {2,3,5,10} after "
         "numpy.random.seed(random) and for r = 1; regular graphs (exactly d live successors per live vertex, d = 1..4) built from "
